@@ -620,7 +620,15 @@ def run_case(case, drv):
     if r.get('error') in ('NonExistentTimeError', 'AmbiguousTimeError'):
         rec['features'].append('pandas-tz-error')      # pandas refuses a wall-clock time of the input: not modelled
         return rec
-    req = request(case, r)
+    try:
+        req = request(case, r)
+    except Exception as e:
+        if type(e).__name__ in ('NonExistentTimeError', 'AmbiguousTimeError'):
+            # a date of the input (or an implicit end derived from it) is no valid wall-clock time in the grid's zone: the harness
+            # cannot hand it to the model as an instant (the implementation did not need it: e.g. it failed a parameter check first)
+            rec['features'].append('pandas-tz-error')
+            return rec
+        raise
     mres = drv.ask(req)
     rec['disagreements'] = compare(case, r, mres, req)
     rec['exact'] = is_exact(case, req) and 'problem' in r
